@@ -309,7 +309,10 @@ pub fn check(case: &Case) -> Vec<(String, String)> {
 
 pub fn replay(case: &Value) -> Vec<String> {
     match serde_json::from_value::<Case>(case.clone()) {
-        Ok(c) => check(&c).into_iter().map(|(s, _)| s).collect(),
+        Ok(c) => {
+            let prefix = if matches!(c, Case::RuleJson(..)) { "body-filter-shape:" } else { "" };
+            check(&c).into_iter().map(|(s, _)| format!("{prefix}{s}")).collect()
+        }
         Err(_) => vec![],
     }
 }
